@@ -306,7 +306,7 @@ def apply_event(tt_mod, objs, ev):
             raise Mismatch('identity', 'ortho*(max_rank) did not return self')
         return []
     if op == 'IslOrthoTrunc':
-        caps = list(ev['caps'])
+        caps = [np.inf if c >= 99 else c for c in ev['caps']]        # INFCAP in the spec
         res = A.ortho(max_rank=caps[1]) if ev['asInt'] else A.ortho(max_rank=caps)
         if res is not A:
             raise Mismatch('identity', 'ortho(max_rank) did not return self')
